@@ -153,6 +153,8 @@ SEEDS = [
     'fun eff(k) {\n  println("e")\n  k\n}\nfun f() {\n  [eff(1)]\n  2\n}\nprintln(string_repr(f()))\n',
     'fun f() {\n  [1, 2]\n  [3, 4]\n}\nprintln(string_repr(f()))\n',
     'fun f(x) {\n  let y = 1\n  y\n}\nprintln(string_repr(f(3)))\n',
+    'fun f(b, c) {\n  (b && c && b) || c || (b && c && b)\n}\nprintln(string_repr(f(True, False)))\n',
+    'fun f(y) {\n  (y <= y) && True && (y <= y)\n}\nprintln(string_repr(f(1)))\n',
 ]
 
 
@@ -160,24 +162,32 @@ def slug(desc):
     return re.sub(r"[^a-z]+", "-", re.sub(r"`[^`]*`", "", desc).lower()).strip("-")
 
 
-def culprit(ctx, src, fixes, before):
+def culprit(ctx, src, fixes, before, parse_only=False):
     """Which single fix, applied alone, already breaks the program (parse / output)? -> slug or 'combination'."""
     texts = []
-    for _, (desc, a, b, new) in fixes:
+    groups = {}
+    for dpos, f in fixes:
+        groups.setdefault(dpos, []).append(f)
+    for dpos, fs in groups.items():       # all fixes of ONE diagnostic together (they are disjoint)
         bs = src.encode()
-        texts.append((desc, (bs[:a] + new.encode() + bs[b:]).decode("utf-8", "replace")))
+        for (desc, a, b, new) in sorted(fs, key=lambda f: -f[1]):
+            bs = bs[:a] + new.encode() + bs[b:]
+        texts.append((fs[0][0], bs.decode("utf-8", "replace")))
     rr = ctx.garden_batch([RC.run_line(t) for _, t in texts], shards=1)
     bad = set()
     for (desc, t), x in zip(texts, rr):
         a = RC.run_result(x)
-        if a[0] != "ok" or a[2] != before[2]:
+        if parse_only:
+            if a[0] == "parse-error":
+                bad.add(slug(desc))
+        elif a[0] != before[0] or a[2] != before[2]:
             bad.add(slug(desc))
     return "+".join(sorted(bad)) if bad else "combination"
 
 
 def run(ctx):
     rng = ctx.rng
-    nprog = ctx.scale(500, 10000)
+    nprog = ctx.scale(300, 10000)
     progs = [(s, ["seed"]) for s in SEEDS] + [gen_lint_program(rng, i) for i in range(nprog)]
     srcs = [p for p, _ in progs]
     n = len(srcs)
@@ -199,7 +209,16 @@ def run(ctx):
         fr = fix_result(fx[i])
         rep = dict(src=s, cmd="garden check --fix --stdout f.gdn")
         if chk[i] and chk[i].startswith("PANIC") or fx[i] and fx[i].startswith("PANIC"):
-            ctx.fail("C22/crash", "check / apply_fixes panicked: %s" % unhex((fx[i] or chk[i])[6:])[:200], **rep)
+            key = "C22/crash"
+            if pc is not None:
+                fs = sorted((f for d in pc[1] for f in d[3]), key=lambda f: (f[1], f[2]))
+                ov = set()
+                for x, y in zip(fs, fs[1:]):
+                    if y[1] < x[2]:
+                        ov |= {slug(x[0]), slug(y[0])}
+                if ov:
+                    key = "C22/crash/overlapping-fixes/" + "+".join(sorted(ov))
+            ctx.fail(key, "check / apply_fixes panicked: %s" % unhex((fx[i] or chk[i])[6:])[:200], **rep)
             continue
         if pc is None or fr is None:
             if fx[i] and "parse-error" in fx[i]:
@@ -250,14 +269,11 @@ def run(ctx):
         if m.group(1) != "1":
             disj_bad += 1
             fs = sorted((f for _, f in fixes), key=lambda f: (f[1], f[2]))
-            over = set()
             for x, y in zip(fs, fs[1:]):
                 if y[1] < x[2] or (y[1], y[2]) == (x[1], x[2]):
-                    over |= {slug(x[0]), slug(y[0])}
-            over = sorted(over)
-            ctx.fail("C22/overlapping-fixes/" + "+".join(over), "the fixes offered for one program overlap or are out of bounds, so "
-                     "apply_fixes is not the simultaneous substitution", src=srcs[i], fixes=[list(f) for _, f in fixes],
-                     cmd="garden check --fix --stdout f.gdn")
+                    ctx.fail("C22/overlapping-fixes/" + "+".join(sorted({slug(x[0]), slug(y[0])})),
+                             "two offered fixes overlap: %r and %r" % (x, y), src=srcs[i],
+                             cmd="garden check --fix --stdout f.gdn")
     # ---- fixed programs: parse, run, fixed point
     cur = {i: stage[i][1] for i in stage if stage[i][0]}
     idxs = sorted(cur)
@@ -273,7 +289,7 @@ def run(ctx):
         rep = dict(src=srcs[i], fixed=t, cmd="garden check --fix --stdout f.gdn")
         pc = parse_check(r1[k])
         if pc is None or pc[0] > 0 or "parse-error" in (r1[2 * m + k] or ""):
-            ctx.fail("C22/fixed-does-not-parse/" + culprit(ctx, srcs[i], stage[i][0], RC.run_result(runs[i])),
+            ctx.fail("C22/fixed-does-not-parse/" + culprit(ctx, srcs[i], stage[i][0], RC.run_result(runs[i]), parse_only=True),
                      "the fixed program has parse errors", **rep)
             continue
         b, a = RC.run_result(runs[i]), RC.run_result(r1[m + k])
@@ -322,6 +338,9 @@ def run(ctx):
     RC.cleanup(scratch)
     for i in idxs[:6]:
         ctx.sample(dict(src=srcs[i], fixed=stage[i][1], fixes=[list(f) for _, f in stage[i][0]]))
+    ctx.cov["failure_keys"] = sorted({f["key"] for f in ctx.failures})
+    ctx.cov["known_keys_hit"] = sorted({k["key"] for k in ctx.known_hit})
+    ctx.log("failure keys: %s; known: %s" % (ctx.cov["failure_keys"], ctx.cov["known_keys_hit"]))
     ctx.cov.update(programs=n, disagreements_checked=len(model_idx), programs_with_fixes=len(idxs), fixes=nfix_total,
                    fixes_by_lint=lint_hist, triggers_generated=hist, rounds_to_fixed_point=rounds_hist,
                    fix_lists_not_disjoint=disj_bad, cli_compared=len(sample))
